@@ -1,5 +1,195 @@
-(* Property C13 — theorems only (placeholder, extended below). *)
-From Coq Require Import List.
-From DV Require Import Model.C13_CMAexec.
-Theorem C13_placeholder : True. Proof. exact I. Qed.
-Print Assumptions C13_placeholder.
+(* Property C13 — theorems only.  Algebraic model Model/C13_CMAalg.v (transcription of
+   deap/cma.py Strategy), published equations Model/C13_CMAspec.v; proofs in Proofs/C13_CMAalg.v.
+   R is an arbitrary real closed field, n the dimension, mu the number of parents; exp, ln, eigh,
+   argsort are oracles and each theorem states the hypotheses on them it needs.
+   (The theorems about the executable list model and about the real logarithm are in Props/C13_exec.v.) *)
+From mathcomp Require Import all_ssreflect fingroup perm all_algebra.
+From DV Require Import Model.C13_CMAalg Model.C13_CMAspec Proofs.C13_CMAalg.
+Set Implicit Arguments.
+Unset Strict Implicit.
+Unset Printing Implicit Defensive.
+Import GRing.Theory Num.Theory Order.TTheory.
+Local Open Scope ring_scope.
+
+(* the recombination weights computed by computeParams are positive, non-increasing and sum to one
+   (three schemes, any mu >= 1; ln only needs to be increasing) *)
+Theorem C13_weights_pos_noninc_sum1 :
+  forall (R : rcfType) (n mu : nat) (ln : R -> R),
+    (forall x y : R, 0 < x -> x < y -> ln x < ln y) -> (0 < mu)%N ->
+    forall (chiN : R) (k : kargs R),
+    let w := p_weights (compute_params n mu ln chiN k) in
+    [/\ forall i : 'I_mu, 0 < w 0 i,
+        forall i j : 'I_mu, (i <= j)%N -> w 0 j <= w 0 i
+      & \sum_(i < mu) w 0 i = 1].
+Proof. exact: weights_pos_noninc_sum1. Qed.
+Print Assumptions C13_weights_pos_noninc_sum1.
+
+(* with no user-supplied rate, computeParams returns the documented defaults (docstring table) *)
+Theorem C13_computeParams_is_documented :
+  forall (R : rcfType) (n mu : nat) (ln : R -> R),
+    (forall x y : R, 0 < x -> x < y -> ln x < ln y) -> (0 < mu)%N ->
+    forall s : scheme,
+    compute_params n mu ln (chiN_of R n) (mkKargs s None None None None None)
+    = default_params n mu ln s.
+Proof. exact: computeParams_is_documented. Qed.
+Print Assumptions C13_computeParams_is_documented.
+
+(* the new centroid is the weighted mean of the rows of population[0:mu] ... *)
+Theorem C13_centroid_is_weighted_mean :
+  forall (R : rcfType) (n mu : nat) (exp : R -> R) (eigh : 'M_n -> 'rV_n * 'M_n)
+         (argsort : 'rV_n -> 'S_n) (P : params R mu) (st : state R n) (X : 'M_(mu, n)),
+    s_centroid (update_sorted exp eigh argsort P st X) = \sum_(i < mu) p_weights P 0 i *: row i X.
+Proof. exact: centroid_is_weighted_mean. Qed.
+Print Assumptions C13_centroid_is_weighted_mean.
+
+(* ... and those rows are the mu best: the sorted population is a permutation of the input, its
+   i-th row is used as row i, and every earlier element is at least as good as every later one *)
+Theorem C13_best_mu_are_best :
+  forall (R : rcfType) (n mu : nat) (disp : unit) (K : orderType disp)
+         (pop : seq (K * 'rV[R]_n)) (d : K * 'rV[R]_n),
+    perm_eq (sort_pop pop) pop /\
+    (forall i : 'I_mu, (i < size pop)%N -> row i (best_mu mu pop) = (nth d (sort_pop pop) i).2) /\
+    (forall i j, (i <= j < size pop)%N ->
+       ((nth d (sort_pop pop) j).1 <= (nth d (sort_pop pop) i).1)%O).
+Proof. exact: best_mu_are_best. Qed.
+Print Assumptions C13_best_mu_are_best.
+
+(* the transcription of Strategy.update computes exactly Hansen's equations (Spec.cma_update):
+   centroid, p_sigma, p_c (with h_sigma), rank-one + rank-mu covariance, step size *)
+Theorem C13_update_is_published :
+  forall (R : rcfType) (n mu : nat) (exp : R -> R) (eigh : 'M_n -> 'rV_n * 'M_n)
+         (argsort : 'rV_n -> 'S_n) (P : params R mu) (st : state R n) (X : 'M_(mu, n)),
+    s_sigma st != 0 -> \sum_(i < mu) p_weights P 0 i = 1 ->
+    let st' := update_sorted exp eigh argsort P st X in
+    (s_centroid st', s_ps st', s_pc st', s_C st', s_sigma st') = cma_update exp P st X.
+Proof. exact: update_is_published. Qed.
+Print Assumptions C13_update_is_published.
+
+(* the same for the complete update on an unsorted evaluated population *)
+Theorem C13_update_pop_is_published :
+  forall (R : rcfType) (n mu : nat) (exp : R -> R) (eigh : 'M_n -> 'rV_n * 'M_n)
+         (argsort : 'rV_n -> 'S_n) (disp : unit) (K : orderType disp)
+         (P : params R mu) (st : state R n) (pop : seq (K * 'rV_n)),
+    s_sigma st != 0 -> \sum_(i < mu) p_weights P 0 i = 1 ->
+    let st' := update exp eigh argsort P st pop in
+    (s_centroid st', s_ps st', s_pc st', s_C st', s_sigma st') = cma_update exp P st (best_mu mu pop).
+Proof. exact: update_pop_is_published. Qed.
+Print Assumptions C13_update_pop_is_published.
+
+(* B D^-1 B^T, which the code uses to whiten the step, is the inverse square root of C *)
+Theorem C13_Cinvsqrt_correct :
+  forall (R : rcfType) (n : nat) (st : state R n),
+    consistent st -> (forall j, s_diagD st 0 j != 0) ->
+    Cinvsqrt st *m s_C st *m Cinvsqrt st = 1%:M.
+Proof. exact: Cinvsqrt_correct. Qed.
+Print Assumptions C13_Cinvsqrt_correct.
+
+(* order independence: any rearrangement of a population with pairwise distinct fitnesses gives
+   the same state *)
+Theorem C13_update_order_independent :
+  forall (R : rcfType) (n mu : nat) (exp : R -> R) (eigh : 'M_n -> 'rV_n * 'M_n)
+         (argsort : 'rV_n -> 'S_n) (disp : unit) (K : orderType disp)
+         (P : params R mu) (st : state R n) (pop1 pop2 : seq (K * 'rV_n)),
+    perm_eq pop1 pop2 -> uniq [seq p.1 | p <- pop1] ->
+    update exp eigh argsort P st pop1 = update exp eigh argsort P st pop2.
+Proof. exact: update_order_independent. Qed.
+Print Assumptions C13_update_order_independent.
+
+Theorem C13_C_symmetric_preserved :
+  forall (R : rcfType) (n mu : nat) (exp : R -> R) (eigh : 'M_n -> 'rV_n * 'M_n)
+         (argsort : 'rV_n -> 'S_n) (P : params R mu) (st : state R n) (X : 'M_(mu, n)),
+    (s_C st)^T = s_C st ->
+    (s_C (update_sorted exp eigh argsort P st X))^T = s_C (update_sorted exp eigh argsort P st X).
+Proof. exact: C_symmetric_preserved. Qed.
+Print Assumptions C13_C_symmetric_preserved.
+
+Theorem C13_sigma_pos :
+  forall (R : rcfType) (n mu : nat) (exp : R -> R) (eigh : 'M_n -> 'rV_n * 'M_n)
+         (argsort : 'rV_n -> 'S_n) (P : params R mu) (st : state R n) (X : 'M_(mu, n)),
+    (forall x, 0 < exp x) -> 0 < s_sigma st ->
+    0 < s_sigma (update_sorted exp eigh argsort P st X).
+Proof. exact: sigma_pos. Qed.
+Print Assumptions C13_sigma_pos.
+
+(* positive semi-definiteness is preserved for admissible rates (c1, cmu >= 0, c1 + cmu <= 1,
+   0 <= cc <= 2, weights >= 0); strictly positive definite when c1 + cmu < 1 *)
+Theorem C13_C_psd_preserved :
+  forall (R : rcfType) (n mu : nat) (exp : R -> R) (eigh : 'M_n -> 'rV_n * 'M_n)
+         (argsort : 'rV_n -> 'S_n) (P : params R mu) (st : state R n) (X : 'M_(mu, n)),
+    rates_ok P -> p_ccov1 P + p_ccovmu P <= 1 -> psd (s_C st) ->
+    psd (s_C (update_sorted exp eigh argsort P st X)).
+Proof. exact: C_psd_preserved. Qed.
+Print Assumptions C13_C_psd_preserved.
+
+Theorem C13_C_pd_preserved :
+  forall (R : rcfType) (n mu : nat) (exp : R -> R) (eigh : 'M_n -> 'rV_n * 'M_n)
+         (argsort : 'rV_n -> 'S_n) (P : params R mu) (st : state R n) (X : 'M_(mu, n)),
+    rates_ok P -> p_ccov1 P + p_ccovmu P < 1 -> pd (s_C st) ->
+    pd (s_C (update_sorted exp eigh argsort P st X)).
+Proof. exact: C_pd_preserved. Qed.
+Print Assumptions C13_C_pd_preserved.
+
+(* one update keeps the strategy consistent: C symmetric, B diag(diagD^2) B^T = C, B orthogonal,
+   BD BD^T = C, sigma > 0 -- given the eigh contract on the new C *)
+Theorem C13_update_consistent :
+  forall (R : rcfType) (n mu : nat) (exp : R -> R) (eigh : 'M_n -> 'rV_n * 'M_n)
+         (argsort : 'rV_n -> 'S_n) (P : params R mu) (st : state R n) (X : 'M_(mu, n)),
+    (forall x, 0 < exp x) -> rates_ok P -> p_ccov1 P + p_ccovmu P <= 1 ->
+    psd (s_C st) -> consistent st ->
+    eigh_ok eigh (s_C (update_sorted exp eigh argsort P st X)) ->
+    consistent (update_sorted exp eigh argsort P st X) /\
+    psd (s_C (update_sorted exp eigh argsort P st X)).
+Proof. exact: update_consistent. Qed.
+Print Assumptions C13_update_consistent.
+
+(* the freshly constructed strategy is consistent ... *)
+Theorem C13_init_consistent :
+  forall (R : rcfType) (n mu : nat) (ln : R -> R) (eigh : 'M_n -> 'rV_n * 'M_n)
+         (argsort : 'rV_n -> 'S_n) (centroid : 'rV_n) (sigma : R) (cmatrix : option 'M_n) (k : kargs R),
+    0 < sigma ->
+    let C0 := if cmatrix is Some C0 then C0 else 1%:M in
+    C0^T = C0 -> psd C0 -> eigh_ok eigh C0 ->
+    consistent (init mu ln eigh argsort centroid sigma cmatrix k).2.
+Proof. exact: init_consistent. Qed.
+Print Assumptions C13_init_consistent.
+
+(* ... and stays so after every sequence of updates (any length, any populations) *)
+Theorem C13_run_consistent :
+  forall (R : rcfType) (n mu : nat) (exp : R -> R) (eigh : 'M_n -> 'rV_n * 'M_n)
+         (argsort : 'rV_n -> 'S_n) (P : params R mu) (st : state R n) (Xs : seq 'M_(mu, n)),
+    (forall x, 0 < exp x) -> rates_ok P -> p_ccov1 P + p_ccovmu P <= 1 ->
+    (forall C : 'M_n, C^T = C -> psd C -> eigh_ok eigh C) ->
+    psd (s_C st) -> consistent st ->
+    consistent (run exp eigh argsort P st Xs) /\ psd (s_C (run exp eigh argsort P st Xs)).
+Proof. exact: run_consistent. Qed.
+Print Assumptions C13_run_consistent.
+
+(* diagD stays strictly positive (so 1/diagD of the next update is defined) when c1 + cmu < 1 *)
+Theorem C13_update_diagD_pos :
+  forall (R : rcfType) (n mu : nat) (exp : R -> R) (eigh : 'M_n -> 'rV_n * 'M_n)
+         (argsort : 'rV_n -> 'S_n) (P : params R mu) (st : state R n) (X : 'M_(mu, n)),
+    rates_ok P -> p_ccov1 P + p_ccovmu P < 1 -> pd (s_C st) ->
+    eigh_ok eigh (s_C (update_sorted exp eigh argsort P st X)) ->
+    forall j, 0 < s_diagD (update_sorted exp eigh argsort P st X) 0 j.
+Proof. exact: update_diagD_pos. Qed.
+Print Assumptions C13_update_diagD_pos.
+
+(* sampling: every individual is centroid + z A^T with A = sigma BD and A A^T = sigma^2 C
+   (so for z ~ N(0, I) the samples have mean centroid and covariance sigma^2 C); the count and
+   dimension are carried by the matrix type 'M_(lambda_, n) *)
+Theorem C13_sample_cov :
+  forall (R : rcfType) (n lambda_ : nat) (st : state R n) (arz : 'M_(lambda_, n)),
+    consistent st ->
+    let A := s_sigma st *: s_BD st in
+    (forall i, row i (generate st arz) = s_centroid st + row i arz *m A^T) /\
+    A *m A^T = (s_sigma st) ^+ 2 *: s_C st.
+Proof. exact: sample_cov. Qed.
+Print Assumptions C13_sample_cov.
+
+(* non-vacuity: in dimension 1 the eigh contract, a consistent positive definite start state and
+   admissible rates with normalised weights exist (for every real closed field) *)
+Example C13_hypotheses_satisfiable :
+  forall R : rcfType,
+    (forall C : 'M[R]_1, eigh_contract C (eigh1 C)) /\ consistent (st1 R) /\
+    (rates_ok (P1 R) /\ p_ccov1 (P1 R) + p_ccovmu (P1 R) < 1 /\ \sum_(i < 1) p_weights (P1 R) 0 i = 1).
+Proof. by move=> R; split; [exact: eigh1_ok | split; [exact: st1_consistent | exact: P1_rates]]. Qed.
